@@ -178,8 +178,8 @@ func NumDoc() DocOpts {
 }
 
 var arithLits = []string{"0", "1", "2", "3", "7", "10", "007", "1.", ".5", "12.50", "0.1", "0.2", "1234567.125", "0.12345678901234567", "99999", "1000000", "0.0001", "0.00001", "3.0", ".125", ".75", ".0625", "0.333", "10.0625"}
-var intLits = []string{"0", "1", "2", "3", "5", "7", "10", "12"}
-var posIntLits = []string{"1", "2", "3", "5", "7", "10"}
+var intLits = []string{"0", "1", "2", "3", "5", "7", "10", "12", "1000000007", "4294967296", "9007199254740993", "255"}
+var posIntLits = []string{"1", "2", "3", "5", "7", "10", "256", "65536", "1000000007"}
 
 func allNumeric(ns xref.NodeSet) bool {
 	for _, n := range ns {
